@@ -36,6 +36,9 @@ func TestMain(m *testing.M) {
 			"resource hygiene: values whose recorded length exceeds 16 MiB are not read (ReadValue/ExportTx/Resolve allocate the recorded length: C16's F22) and a compressed-chunk length prefix of 16 MiB or more is not generated (C16's F18); lengths below that bound are",
 			"expirations use fixed far-past / far-future instants; an entry that expired in 2001 must never yield a value",
 			"liveness bounds (index wait 90 s, whole case 180 s) are >1000x the normal latency and only guard the 'bounded time' clause",
+			"every altered copy is first opened with its (unaltered) index, so that all direct reads run in the harness goroutine where a panic is recovered and reported; only then the index is deleted and rebuilt by the indexer goroutine (a panic there kills the process: driver exit 2, attributed by replays/_new/C09-inflight-*.json)",
+			"record-over-record splices (known finding K9): direct reads and the first read of a TxReader may return exactly the substituted committed record, the rebuilt index is not asserted; chained TxReader reads, DualProof verification and everything else still are",
+			"the unaltered copy must read back without any error; there the index is awaited before the reads (a transient 'key not found' of multiapp's chunk cache under concurrent readers makes the indexer retry, which is not this property's business)",
 		},
 		Probes: []vk.Probe{
 			{ID: kfK4, Present: probeK4},
@@ -133,7 +136,7 @@ func outcomeLabels(e interface{ Label(string) }, r *result, base map[string]int,
 const altsPerStore = 8
 
 func TestCorruptionDetected(t *testing.T) {
-	vk.Check(t, 160, 16000, func(rt *rapid.T, c *vk.Case) {
+	vk.Check(t, 160, 8000, func(rt *rapid.T, c *vk.Case) {
 		spec := genStoreSpec(rt, 25)
 		c.Descf("%s", spec)
 		dir := vk.Dir()
@@ -165,7 +168,7 @@ func TestCorruptionDetected(t *testing.T) {
 		anyNonTrivial := false
 		for i := 0; i < altsPerStore; i++ {
 			alt := genAlteration(rt, p)
-			rebuild := rapid.IntRange(0, 2).Draw(rt, "rebuildIndex") > 0
+			rebuild := uni(rt, 3, "rebuildIndex") > 0
 			e := vk.NewEnum(t.Name() + "/alteration")
 			e.Descf("%s | %s rebuild=%v", shape, alt, rebuild)
 			e.Label("kind:" + alt.kind)
